@@ -13,7 +13,7 @@ from sa.members import self_attr
 
 K, D, C = 'K', 'D', 'C'   # C: a Python number or a fixed one-element constant (broadcasts with anything)
 REDUCTIONS = {'sum', 'mean', 'prod', 'logsumexp', 'amax', 'amin', 'cumsum'}
-POINTWISE = {'log', 'exp', 'clone', 'abs', 'sqrt', 'log1p', 'expm1', 'neg', 'detach', 'double', 'float', 'to', 'contiguous', 'lgamma', 'sigmoid'}
+POINTWISE = {'log', 'exp', 'clone', 'abs', 'sqrt', 'log1p', 'expm1', 'neg', 'detach', 'double', 'float', 'to', 'contiguous', 'lgamma', 'sigmoid', 'pow', 'square', 'reciprocal', 'rsqrt'}
 
 
 def _last_index(sub: ast.Subscript):
@@ -32,6 +32,8 @@ class Axes:
         self._seen = set()
         self.decided = 0
         self._counted = set()
+        self._depth = 0
+        self._returns = None
         self.tensor_attrs = self._tensor_attrs(fn)
         self.const_attrs = self._const_attrs(fn)
 
@@ -120,6 +122,9 @@ class Axes:
         if isinstance(e, ast.IfExp):
             a, b = self.kind(e.body, env), self.kind(e.orelse, env)
             return a if a == b else None
+        if isinstance(e, ast.Call) and isinstance(e.func, ast.Attribute) and isinstance(e.func.value, ast.Name) and e.func.value.id == 'self' and self._depth < 3:
+            r = self.call_method(e, env)
+            return r if isinstance(r, str) else None
         if isinstance(e, ast.Call) and isinstance(e.func, ast.Attribute):
             a = e.func.attr
             torch_fn = isinstance(e.func.value, ast.Name) and e.func.value.id == 'torch'
@@ -158,6 +163,32 @@ class Axes:
             return None
         return None
 
+    def call_method(self, call, env):
+        """kind (or tuple of kinds) returned by a method of the same class, evaluated with the kinds of the actual arguments"""
+        cl = getattr(self.fn, '_parent', None)
+        while cl is not None and not isinstance(cl, ast.ClassDef):
+            cl = getattr(cl, '_parent', None)
+        if cl is None:
+            return None
+        target = next((b for b in cl.body if isinstance(b, ast.FunctionDef) and b.name == call.func.attr), None)
+        if target is None or target is self.fn:
+            return None
+        params = [a.arg for a in target.args.args][1:]
+        sub = Axes(target, height_params=())
+        sub._depth = self._depth + 1
+        sub.tensor_attrs, sub.const_attrs = self.tensor_attrs, self.const_attrs
+        env2 = {p_: self.kind(a, env) for p_, a in zip(params, call.args)}
+        env2.update({k.arg: self.kind(k.value, env) for k in call.keywords if k.arg})
+        rets = []
+        sub._returns = rets
+        sub.block(target.body, env2)
+        self.reports += [r for r in sub.reports if id(r[0]) not in self._seen and not self._seen.add(id(r[0]))]
+        self.decided += sub.decided
+        if not rets:
+            return None
+        first = rets[0]
+        return first if all(r == first for r in rets) else None
+
     def _visit_exprs(self, node, env):
         """evaluate every arithmetic sub-expression of a statement's expressions (for the reports)"""
         for x in ast.walk(node):
@@ -177,23 +208,28 @@ class Axes:
     def stmt(self, st, env):
         if isinstance(st, ast.Assign):
             self._visit_exprs(st.value, env)
-            v = self.kind(st.value, env)
+            tuple_kinds = None
+            if isinstance(st.value, ast.Call) and isinstance(st.value.func, ast.Attribute) and isinstance(st.value.func.value, ast.Name) and st.value.func.value.id == 'self' \
+                    and self._depth < 3 and any(isinstance(t, (ast.Tuple, ast.List)) for t in st.targets):
+                r = self.call_method(st.value, env)
+                tuple_kinds = r if isinstance(r, tuple) else None
+                v = None
+            else:
+                v = self.kind(st.value, env)
             env = dict(env)
             for t in st.targets:
                 if isinstance(t, ast.Name):
                     env[t.id] = v
                 elif isinstance(t, (ast.Tuple, ast.List)):
-                    for x in t.elts:
+                    for i_, x in enumerate(t.elts):
                         if isinstance(x, ast.Name):
-                            env[x.id] = None
+                            env[x.id] = tuple_kinds[i_] if tuple_kinds is not None and i_ < len(tuple_kinds) else None
             return env
         if isinstance(st, ast.AugAssign):
             self._visit_exprs(st.value, env)
             if isinstance(st.target, ast.Name):
                 l, r = env.get(st.target.id), self.kind(st.value, env)
-                if l and r and l != r and C not in (l, r) and id(st) not in self._seen:
-                    self._seen.add(id(st))
-                    self.reports.append((st, l, r))
+                # an in-place update cannot broadcast its output: [S, 1] op= [S] raises for S > 1 (an error is allowed, a silent [S, S] is not) — not reported
                 env = dict(env)
                 env[st.target.id] = l if (l == r or r == C) else None
             return env
@@ -219,6 +255,11 @@ class Axes:
             return self.block(st.finalbody, a)
         if isinstance(st, (ast.Return, ast.Expr)) and st.value is not None:
             self._visit_exprs(st.value, env)
+            if isinstance(st, ast.Return) and self._returns is not None:
+                if isinstance(st.value, ast.Tuple):
+                    self._returns.append(tuple(self.kind(x, env) for x in st.value.elts))
+                else:
+                    self._returns.append(self.kind(st.value, env))
         return env
 
     def run(self):
